@@ -2296,7 +2296,12 @@ fn yaml_quote_string(s: &str) -> String {
         || s.contains('\r')
         || s.contains('\t')
         || s.ends_with(':')
-        || s.ends_with(' ');
+        || s.ends_with(' ')
+        // A plain scalar cannot carry leading white space, and the loader
+        // types a plain scalar through `resolve_plain`: anything it would read
+        // back as a non-string (`0x2A`, `0o17`, `+.inf`, ...) must be quoted.
+        || s.starts_with(' ')
+        || succinctly::yaml::resolve_plain(s) != succinctly::yaml::ResolvedScalar::Str;
 
     if needs_quoting {
         yaml_double_quote_escaped(s)
@@ -2405,6 +2410,14 @@ fn yaml_quote_key(s: &str) -> String {
         || s.starts_with('*')
         || s.starts_with('&')
         || s.starts_with('!')
+        // `%` opens a directive at the start of a line, `|`/`>` open a block
+        // scalar, and a plain key cannot carry leading or trailing white space.
+        || s.starts_with('%')
+        || s.starts_with('|')
+        || s.starts_with('>')
+        || s.starts_with(' ')
+        || s.starts_with('\t')
+        || s.ends_with('\t')
         || s.ends_with(' ');
 
     if needs_quoting {
